@@ -58,6 +58,33 @@ class InstanceLayer:
         return '<layer %s.%s>' % (self.__module__, self.__name__)
 
 
+def snapshot():
+    """Canonical view of the interpreter-global state a run may touch (C18)."""
+    import gc
+    import threading as _t
+    import traceback
+    import warnings
+
+    def hook(h):
+        if h is None:
+            return 'None'
+        owner = getattr(h, '__self__', None)
+        return (type(owner).__name__ + '.' if owner is not None else '') + getattr(h, '__name__', type(h).__name__)
+
+    def stream(x, orig):
+        return 'orig' if (x is orig or getattr(x, '_vw_orig', False)) else type(x).__name__
+    return {
+        '0': repr(tuple(gc.get_threshold())), '1': str(gc.get_debug()),
+        '2': traceback.format_exception.__module__ + '.' + traceback.format_exception.__qualname__,
+        '3': traceback.print_exception.__module__ + '.' + traceback.print_exception.__qualname__,
+        '4': hook(sys.gettrace()), '5': hook(getattr(_t, '_trace_hook', None)), '6': hook(sys.getprofile()) + '/' + str(sys.monitoring.get_tool(sys.monitoring.PROFILER_ID) if hasattr(sys, 'monitoring') else None),
+        '7': str(hash(tuple(repr(f) for f in warnings.filters))),
+        '8': stream(sys.stdout, sys.__stdout__), '9': stream(sys.stderr, sys.__stderr__),
+        '10': 'same' if sys.settrace is _ORIG_SETTRACE else 'replaced',
+    }
+
+
+_ORIG_SETTRACE = sys.settrace
 _held = []          # threads parked by tests: (event, thread)
 
 
@@ -150,6 +177,8 @@ def build(modname):
         for mname, (tidx, T) in table.items():
             def body(self, tidx=tidx, T=T):
                 emit('t_body', tidx)
+                if T.get('probe'):
+                    emit('probe', tidx, snapshot())
                 _writes(T, 'body')
                 for spec in T.get('threads', []):
                     _start_thread(tidx, spec)
